@@ -121,10 +121,10 @@ func tsDocs() []Doc {
 	}})
 	// the same service with PAT/PMT repeated before every PES (a receiver that cannot rewind still finds them)
 	var repPages []teletext.Page
-	for i := 0; i < 24; i++ {
+	for i := 0; i < 5; i++ {
 		repPages = append(repPages, teletext.Page{Number: 888, AtMs: int64(i+1) * 1000, Rows: []teletext.RowText{{Row: 22, Text: fmt.Sprintf("cue %d", i)}}})
 	}
-	rep := teletext.Spec{Pages: append(repPages, teletext.Page{Number: 888, AtMs: 25000})}.Stream()
+	rep := teletext.Spec{Pages: append(repPages, teletext.Page{Number: 888, AtMs: 6000})}.Stream()
 	rep.TablesEvery = 1
 	return []Doc{{"ts-tables-repeated", "ts", rep.Bytes(), true}, {"ts-two-pages-888-889", "ts", two, true}, {"ts-french-3", "ts", fr, true}, {"ts-german-serial-2", "ts", de, true}, {"ts-english-1", "ts", en, true}}
 }
